@@ -4,6 +4,8 @@ Each patch is applied to /repo, the property's check is run, and /repo is restor
 import json
 import os
 import subprocess
+import os as _os
+_os.environ.setdefault('VERIF_ITEM_S', '120')     # seeded trees may make single work items very slow
 import sys
 
 ROOT = "/verif"
